@@ -44,6 +44,11 @@ type scenario struct {
 	SilentAt time.Duration
 	Dur      time.Duration
 	RspDelay time.Duration
+	// Prologue: a generation BEFORE the one the script runs on — 1: the peer never answers a probe and
+	// is dropped by the linktest; 2: the peer stops reading, a W-bit application send fails at the
+	// write and the link drops. Whatever the previous generation left behind (a failure run, a gauge)
+	// must not change how the new session is probed.
+	Prologue int
 	Life     int  // slow-but-alive: what the sign of life is (lifeNames)
 	Reselect bool // silent scripts: the peer deselects and re-selects the session on the same connection just before it goes dark
 	Traffic  []time.Duration // app W-bit sends (prompt replies)
@@ -78,6 +83,9 @@ type harness struct {
 	sendsDone bool
 	localSends []time.Duration
 	reselAt    time.Duration // arrival of the peer's second Select.req at the library (0 = none)
+	usedLn       int
+	prologueOn   bool // the prologue generation is running
+	prologueDone bool
 }
 
 func genScenario(t *core.Tape) scenario {
@@ -92,6 +100,7 @@ func genScenario(t *core.Tape) scenario {
 	if sc.Script == sIntermittent && sc.N < 2 {
 		sc.N = 2
 	}
+	sc.Prologue = t.Weighted("scn", 4, 1, 1)
 	sc.Life = t.Choose("scn", len(lifeNames))
 	sc.Reselect = t.Choose("scn", 3) == 2
 	sc.SilentAt = time.Duration(500+t.Choose("scn", 2000))*time.Millisecond + 333*time.Microsecond
@@ -120,8 +129,14 @@ func Build(config string) core.BuildFunc {
 		h.sc = genScenario(w.T)
 		sc := h.sc
 		supp := sc.Supp
+		backoff := 10 * time.Second
+		wto := 30 * time.Second
+		if sc.Prologue != 0 {
+			backoff = 30 * time.Millisecond
+			wto = 120 * time.Millisecond
+		}
 		h.r = rig.New(w, rig.Opts{Active: sc.Active, Equip: sc.Equip, T3: 20 * time.Second, T5: time.Second, T6: sc.T6, T7: 5 * time.Second, T8: 5 * time.Second,
-			Linktest: sc.I, LinkThreshold: sc.N, Suppress: &supp, BackoffInit: 10 * time.Second, BackoffMult: 1, CloseTimeout: time.Second})
+			Linktest: sc.I, LinkThreshold: sc.N, Suppress: &supp, BackoffInit: backoff, BackoffMult: 1, CloseTimeout: time.Second, WriteTimeout: &wto})
 		r := h.r
 		r.P.AutoSelectRsp = 0
 		r.P.AutoLinktest = false
@@ -139,12 +154,14 @@ func Build(config string) core.BuildFunc {
 		if !sc.Active {
 			var try func()
 			try = func() {
-				if h.c != nil {
+				if h.stop {
 					return
 				}
-				if r.N.Listening(rig.Addr) {
+				if h.c == nil && r.N.Listening(rig.Addr) && len(r.N.Listeners) > h.usedLn {
+					h.usedLn = len(r.N.Listeners)
 					r.P.Connect(rig.Addr)
-
+				}
+				if h.c != nil && (sc.Prologue == 0 || h.prologueDone) {
 					return
 				}
 				w.After(2*time.Millisecond, "peer-connect", try)
@@ -155,7 +172,7 @@ func Build(config string) core.BuildFunc {
 		return &core.Scenario{
 			Desc:       h.describe(),
 			Horizon:    60 * time.Second,
-			Done:       func() bool { return h.started && (h.c.L.A.ClosedAt >= 0 && w.Now() > h.c.L.A.ClosedAt+20*time.Millisecond || w.Now() >= h.endAt) && w.Idle() },
+			Done:       func() bool { return h.started && h.c != nil && (h.c.L.A.ClosedAt >= 0 && w.Now() > h.c.L.A.ClosedAt+20*time.Millisecond || w.Now() >= h.endAt) && w.Idle() },
 			Final:      h.final,
 			Cleanup:    func() { h.stop = true; r.Close() },
 			Nontrivial: func() bool { return h.started && len(h.probes) > 0 },
@@ -166,13 +183,18 @@ func Build(config string) core.BuildFunc {
 func (h *harness) describe() map[string]any {
 	sc := h.sc
 
-	return map[string]any{"script": scriptNames[sc.Script], "active": sc.Active, "equip": sc.Equip, "interval": sc.I.String(), "T6": sc.T6.String(), "threshold": sc.N, "suppression": sc.Supp, "life": lifeNames[sc.Life], "reselect": sc.Reselect,
+	return map[string]any{"script": scriptNames[sc.Script], "active": sc.Active, "equip": sc.Equip, "interval": sc.I.String(), "T6": sc.T6.String(), "threshold": sc.N, "suppression": sc.Supp, "prologue": []string{"none", "previous generation dropped by the linktest", "previous generation lost to a failed W-bit write"}[sc.Prologue], "life": lifeNames[sc.Life], "reselect": sc.Reselect,
 		"silentAt": sc.SilentAt.String(), "duration": sc.Dur.String(), "rspDelay": sc.RspDelay.String(), "appSends": len(sc.Traffic), "peerData": len(sc.PeerData)}
 }
 
 // monitor starts the script once the session is Selected.
 func (h *harness) monitor() {
-	if h.started || h.c == nil || !h.r.Selected() {
+	if h.sc.Prologue != 0 && !h.prologueDone {
+		h.prologue()
+
+		return
+	}
+	if h.started || h.c == nil || !h.r.Selected() || h.c.L.A.ClosedAt >= 0 {
 		return
 	}
 	w, sc := h.w, h.sc
@@ -260,6 +282,48 @@ func (h *harness) monitor() {
 	}
 }
 
+// prologue drives the generation before the scripted one and hands over when the library has
+// dropped it.
+func (h *harness) prologue() {
+	w, sc := h.w, h.sc
+	if h.c == nil {
+		return
+	}
+	if !h.prologueOn {
+		if !h.r.Selected() {
+			return
+		}
+		h.prologueOn = true
+		if sc.Prologue == 2 {
+			c := h.c
+			w.After(20*time.Millisecond, "prologue-wedge", func() {
+				if !c.Alive() {
+					return
+				}
+				w.Fault("sndfull")
+				c.L.SetCap(8)
+				c.L.Stall(false, 0)
+				w.Go("app-prologue", func() {
+					_, err := h.r.C.SendDataMessage(context.Background(), 1, 1, true, secs2.A("prologue"))
+					w.Logf("prologue send err=%v", err)
+				})
+			})
+		} else {
+			w.Fault("prologue-silent-peer")
+		}
+
+		return
+	}
+	if h.c.L.A.ClosedAt >= 0 {
+		// the library has dropped the prologue generation: the scripted one is the next connection
+		w.Probe(fmt.Sprintf("prologue%d_generation_dropped", sc.Prologue))
+		h.c.L.RST()
+		h.c = nil
+		h.probes = nil
+		h.prologueDone = true
+	}
+}
+
 func (h *harness) dark() bool {
 	sc := h.sc
 	switch sc.Script {
@@ -275,6 +339,13 @@ func (h *harness) onFrame(c *refhsms.Conn, f refhsms.RxFrame) {
 		return
 	}
 	w, sc := h.w, h.sc
+	if sc.Prologue != 0 && !h.prologueDone {
+		if f.H.SType == refhsms.STLinktestReq && sc.Prologue == 2 {
+			c.SendFrame(refhsms.Header{Session: 0xFFFF, SType: refhsms.STLinktestRsp, Sys: f.H.Sys}, nil)
+		}
+
+		return
+	}
 	switch f.H.SType {
 	case refhsms.STLinktestReq:
 		p := &probe{at: f.WrittenAt}
@@ -502,6 +573,11 @@ func (h *harness) final(reason string) {
 			// the late answer comes after the first timeout, and one timeout is the threshold
 			mustDropAfterN("threshold 1: the first probe timed out before the late answer arrived")
 		} else if sc.Supp {
+			if closed < 0 && len(h.probes) == 0 {
+				w.Fail("NO_PROBE", "the session has been Selected since %v with no traffic and nothing outstanding, but no probe was ever sent%s", h.selAt, ctx)
+
+				return
+			}
 			if closed < 0 && len(h.probes) < sc.N+1 {
 				w.Fail("HARNESS", "too few probes (%d) to exercise the threshold %d%s", len(h.probes), sc.N, ctx)
 
